@@ -29,6 +29,15 @@ func main() {
 			t = "quick"
 		}
 		os.Exit(props.Run(*prop, t, *only))
+	case "selftest":
+		fs := flag.NewFlagSet("selftest", flag.ExitOnError)
+		prop := fs.String("prop", "", "property id (default all)")
+		_ = fs.Parse(os.Args[2:])
+		res := props.SelfTest(*prop, true)
+		fmt.Printf("selftest: applied=%d detected=%d missed=%d skipped=%d false_alarms=%d\n", res.Applied, res.Detected, len(res.Missed), len(res.Skipped), len(res.FalseFire))
+		if len(res.Missed) > 0 || len(res.FalseFire) > 0 {
+			os.Exit(1)
+		}
 	case "list":
 		ids := props.IDs()
 		sort.Strings(ids)
